@@ -200,29 +200,10 @@ func runC11(c *Ctx, r *Report, tier string) {
 	}
 
 	// MAP
-	nSplit := 0
-	for _, in := range c.instrs(cv, c.isCallTo("strings.SplitN", "strings.Split", "strings.SplitAfterN", "strings.Fields", "strings.Cut")) {
-		nSplit++
-		t := c.term(in.(*ssa.Call))
-		r.Check(t == `call:strings.SplitN(P0, ":", 2)`, "MAP", cn, "map entry split", c.ipos(in), "strings.SplitN(val, \":\", 2): key and value separate at the first colon only", "map entry is split with "+t)
-		got := kindNames(kindsAt(in))
-		r.Check(got == ks(reflect.Map), "MAP", cn, "split only for maps", c.ipos(in), "reached for kind map", "split reached for kinds {"+got+"}")
-	}
-	r.Check(nSplit == 1, "MAP", cn, "one split", c.pos(cv.Pos()), "one", fmt.Sprintf("%d", nSplit))
-	for _, b := range cv.Blocks {
-		for _, in := range b.Instrs {
-			ia, ok := in.(*ssa.IndexAddr)
-			if !ok || c.term(ia.X) != `call:strings.SplitN(P0, ":", 2)` {
-				continue
-			}
-			if k, isC := constInt(ia.Index); isC && k == 1 {
-				c.reqRule(r, "MAP", cv, in, "parts[1] only when a colon was present", litHas(true, `eq(2, len(call:strings.SplitN(P0, ":", 2)))`), "len(parts) == 2", nil)
-			}
-		}
-	}
+	c.ruleMapSplit(r, "MAP", cv)
 	for _, in := range c.instrs(cv, c.isCallTo("(reflect.Value).SetMapIndex")) {
 		a := in.(*ssa.Call).Call.Args
-		ok := c.term(a[0]) == "P1" && strings.HasPrefix(c.term(a[1]), "call:reflect.Indirect(call:reflect.New(invoke:Type.Key(") && strings.HasPrefix(c.term(a[2]), "call:reflect.Indirect(call:reflect.New(invoke:Type.Elem(")
+		ok := c.term(a[0]) == "P1" && strings.HasPrefix(c.term(a[1]), "fresh(invoke:Type.Key(") && strings.HasPrefix(c.term(a[2]), "fresh(invoke:Type.Elem(")
 		r.Check(ok, "MAP", cn, "SetMapIndex(key, value)", c.ipos(in), "retval[converted key] = converted value", "SetMapIndex operands: "+trunc(c.term(a[1]), 60)+", "+trunc(c.term(a[2]), 60))
 	}
 
@@ -230,7 +211,7 @@ func runC11(c *Ctx, r *Report, tier string) {
 	for _, in := range c.instrs(cv, c.isCallTo("reflect.Append")) {
 		a := in.(*ssa.Call).Call.Args
 		es := sliceLitElems(a[len(a)-1])
-		ok := c.term(a[0]) == "P1" && len(es) == 1 && strings.HasPrefix(c.term(es[0]), "call:reflect.Indirect(call:reflect.New(invoke:Type.Elem(")
+		ok := c.term(a[0]) == "P1" && len(es) == 1 && strings.HasPrefix(c.term(es[0]), "fresh(invoke:Type.Elem(")
 		// and the result is stored back into retval
 		stored := false
 		if refs := in.(*ssa.Call).Referrers(); refs != nil {
@@ -357,5 +338,70 @@ func runC11(c *Ctx, r *Report, tier string) {
 			eqLit,
 		), nil)
 		r.Check(ok, "CHOICE", sn, "conversion only when the choice test allows it", c.ipos(in), "REQ(no choices ∨ nil value ∨ found)", "conversion is reachable for a value outside the declared choices")
+	}
+}
+
+// ruleMapSplit: in convert's map case the key is the text before the first ':'
+// (the whole text when there is none) and the value the text after it (empty
+// when there is none) — whatever idiom computes them (SplitN(…, 2), Index + slicing, …).
+func (c *Ctx) ruleMapSplit(r *Report, rule string, cv *ssa.Function) {
+	cn := c.fname(cv)
+	var keyCall, valCall *ssa.Call
+	for _, in := range c.instrs(cv, c.isCallTo("convert")) {
+		call := in.(*ssa.Call)
+		t1 := c.term(call.Call.Args[1])
+		switch {
+		case strings.HasPrefix(t1, "call:reflect.New(invoke:Type.Key("), strings.HasPrefix(t1, "fresh(invoke:Type.Key("):
+			keyCall = call
+		case strings.HasPrefix(t1, "call:reflect.New(invoke:Type.Elem(") && strings.Contains(c.term(call.Call.Args[0]), `":"`):
+			valCall = call
+		}
+	}
+	members := func(t string) []string {
+		if strings.HasPrefix(t, "phi{") && strings.HasSuffix(t, "}") {
+			return strings.Split(t[4:len(t)-1], " | ")
+		}
+		return []string{t}
+	}
+	if keyCall == nil || valCall == nil {
+		r.Fail(rule, cn, "map key/value conversions", c.pos(cv.Pos()), "the recursive conversions of map key and value were not found")
+		return
+	}
+	okK, hasB := true, false
+	for _, m := range members(c.term(keyCall.Call.Args[0])) {
+		switch m {
+		case `before(P0, ":")`:
+			hasB = true
+		case "P0":
+		default:
+			okK = false
+		}
+	}
+	r.Check(okK && hasB, rule, cn, "map key is the text before the first ':'", c.ipos(keyCall), "key ∈ {before(val, \":\"), val}", "map key is "+trunc(c.term(keyCall.Call.Args[0]), 120)+": the entry is not cut at the first colon")
+	okV, hasA := true, false
+	for _, m := range members(c.term(valCall.Call.Args[0])) {
+		switch m {
+		case `after(P0, ":")`:
+			hasA = true
+		case `""`:
+		default:
+			okV = false
+		}
+	}
+	r.Check(okV && hasA, rule, cn, "map value is the text after the first ':'", c.ipos(valCall), "value ∈ {after(val, \":\"), \"\"}", "map value is "+trunc(c.term(valCall.Call.Args[0]), 120)+": a value containing ':' is truncated or dropped")
+	// the after-part is taken only when a colon is present
+	if p, ok := c.resolve(valCall.Call.Args[0]).(*ssa.Phi); ok {
+		for i, e := range p.Edges {
+			if c.term(e) != `after(P0, ":")` {
+				continue
+			}
+			pred := p.Block().Preds[i]
+			last := pred.Instrs[len(pred.Instrs)-1]
+			_, req := c.Requires(cv, isInstr(last), litIs(`has(P0, ":")`, true), nil)
+			if l, ok := c.edgeLitTo(pred, p.Block()); ok && l.Term == `has(P0, ":")` && l.Pos {
+				req = true
+			}
+			r.Check(req, rule, cn, "value part only when a colon is present", c.ipos(last), "REQ(val contains ':')", "the text after the colon is used without testing that there is one")
+		}
 	}
 }
